@@ -132,7 +132,8 @@ BIGN = "(g_nv > g_nc ? g_nv : g_nc + 1)"          # "as many as there are vertic
 
 
 def bound_variants(name, params, vals):
-    pn = [p[0] for p in params]
+    # only INPUT parameters take part: scalars, and pointers to const
+    pn = [p[0] if ("*" not in p[1] or "const" in p[1]) else "(out)" + p[0] for p in params]
     ix = {n: i for i, n in enumerate(pn)}
     out = []
 
@@ -536,11 +537,18 @@ def finding_key(fn, var, what, state, F, claims, bad_long=frozenset(), doc="Writ
             return "cgi_get_zcoorGC:Z:container-created-before-validation"
         if "cgi_get_particle_pcoorPC" in cs:
             return "cgi_get_particle_pcoorPC:P:container-created-before-validation"
+    if any("selection state" in w for w in what) and re.match(r"cg_go(to|rel|path|list)", fn) and not accepted:
+        return "cgi_set_posit:position:changed-by-failed-goto"     # the position is reset / partly updated before the path is validated
+    if changed and not accepted and state in NO_ZGC_STATES and fn in ZGC_CREATORS and not any("file content" in w for w in what):
+        # the ZoneGridConnectivity_t container of a zone that has none is created and counted before the arguments are checked
+        return "cg_1to1_write:range:range" if fn == "cg_1to1_write" else "%s:Z:container-created-before-validation" % ZGC_CREATORS[fn]
     if fam == "index" and accepted and fn in TOLERANT_COUNTERS:
         return "%s:B/Z:index" % fn                       # one missing test of the getter's result per function
     return "%s:%s:%s" % (fn, var["param"], fam)
 
 
+NO_ZGC_STATES = {"bare12", "unstr"}          # templates whose zone (1,1) has no ZoneGridConnectivity_t
+ZGC_CREATORS = {"cg_1to1_write": "cg_1to1_write", "cg_conn_write": "cg_conn_write", "cg_conn_write_short": "cg_conn_write", "cg_hole_write": "cg_hole_write"}
 # the count functions that report 0 with CG_OK when the getter of their container fails (Validate.known_tolerant [G])
 TOLERANT_COUNTERS = {"cg_ncoords", "cg_nholes", "cg_nconns", "cg_n1to1", "cg_n1to1_global", "cg_nbocos", "cg_particle_ncoords"}
 
